@@ -112,6 +112,68 @@ def _splice(f, bb, g):
             f['inlined'].append(p)
 
 
+def _rewrite_upvars(x, self_local, upvar_locals):
+    """places `_self.^name<proj>` of a spliced coroutine body become `_U_name<proj>`"""
+    if isinstance(x, list):
+        return [_rewrite_upvars(y, self_local, upvar_locals) for y in x]
+    if not isinstance(x, dict):
+        return x
+    out = {k: _rewrite_upvars(v, self_local, upvar_locals) for k, v in x.items()}
+    if out.get('l') == self_local and isinstance(out.get('p'), list) and out['p'] and isinstance(out['p'][0], str) and out['p'][0].startswith('.^'):
+        name = out['p'][0][2:]
+        if name in upvar_locals:
+            out['l'] = upvar_locals[name]
+            out['p'] = out['p'][1:]
+    return out
+
+
+def _splice_await(f, call_bb, poll_bb, g, c):
+    """`g(args).await` inside f, where g is an async helper and c its coroutine body: the body is spliced in at the poll.  An await is
+    treated as sequential composition: c's own yields fall through to their resume points, its return makes the poll Ready."""
+    call_t = f['blocks'][call_bb]['t']
+    poll_blk = f['blocks'][poll_bb]
+    poll_t = poll_blk['t']
+    loff = len(f['locals'])
+    boff = len(f['blocks'])
+    f['locals'] = f['locals'] + list(c['locals'])
+    ln = poll_t.get('ln')
+    # captured parameters: one fresh local each, assigned where the future is created
+    names = [d['name'] for d in sorted((d for d in (g.get('debug') or []) if 'l' in d['place'] and not d['place']['p'] and 1 <= d['place']['l'] <= g['argc']),
+                                       key=lambda d: d['place']['l'])]
+    upvar_locals = {}
+    for i, a in enumerate(call_t.get('args') or []):
+        if i >= len(names):
+            break
+        ul = len(f['locals'])
+        f['locals'] = f['locals'] + [g['locals'][i + 1]]
+        upvar_locals[names[i]] = ul
+        f['blocks'][call_bb]['st'].append({'k': 'assign', 'd': {'l': ul, 'p': [], 't': g['locals'][i + 1]}, 'rv': {'k': 'use', 'a': copy.deepcopy(a)},
+                                           'ln': call_t.get('ln'), 'inl': c['path']})
+    dest = poll_t['d']
+    target = poll_t.get('tg')
+    poll_blk['t'] = {'k': 'goto', 'tg': boff, 'ln': ln, 'inl_call': {'callee': poll_t.get('callee'), 'resolved': poll_t.get('resolved')}}
+    for cb in c['blocks']:
+        nb = _shift(cb, loff, boff)
+        nb = _rewrite_upvars(nb, 1 + loff, upvar_locals)
+        nb['inl'] = c['path']
+        tk = nb['t']['k']
+        if tk == 'return':
+            nb['st'].append({'k': 'assign', 'd': copy.deepcopy(dest),
+                             'rv': {'k': 'agg', 'ak': 'adt', 'adt': 'core::task::poll::Poll', 'variant': 'Ready', 'vidx': 0, 'targs': [], 'fields': ['0'],
+                                    'ops': [{'l': loff, 'p': [], 't': c['locals'][0], 'o': 'move'}]},
+                             'ln': nb['t'].get('ln'), 'inl': c['path']})
+            nb['t'] = {'k': 'goto', 'tg': target, 'ln': nb['t'].get('ln')} if target is not None else {'k': 'unreachable', 'ln': nb['t'].get('ln')}
+        elif tk == 'yield':
+            nb['t'] = {'k': 'goto', 'tg': nb['t']['tg'], 'ln': nb['t'].get('ln'), 'was_yield': True}
+        f['blocks'].append(nb)
+    for d in c.get('debug') or []:
+        f.setdefault('debug', []).append({'name': d['name'], 'place': _rewrite_upvars(_shift(d['place'], loff, boff), 1 + loff, upvar_locals), 'inl': c['path']})
+    f.setdefault('inlined', [])
+    for p_ in [g['path'], c['path']] + list(c.get('inlined') or []):
+        if p_ not in f['inlined']:
+            f['inlined'].append(p_)
+
+
 def _references_as_value(fns, path):
     """is the function mentioned as a value (fn pointer / fn item passed along) anywhere?"""
     needle = json.dumps(path)
@@ -170,19 +232,61 @@ def inline_view(fns, known):
                 _splice(f, blk['i'], done[g['path']])
                 changed = True
                 break
+    # async helpers: an unknown plain fn whose body only builds its coroutine; the coroutine body is spliced in where it is awaited
+    by_path = {f['path']: f for f in fns}
+    async_helpers = {}
+    for np, g in unknown.items():
+        c = by_path.get(g['path'] + '::{closure#0}')
+        if c is not None and c.get('coroutine') and 'Async' in str(c.get('coroutine')):
+            async_helpers[c['path']] = (g, c)
+    done_c = {}
+
+    def expand_awaits(f, stack, depth):
+        changed = True
+        rounds = 0
+        while changed and rounds < 50:
+            changed = False
+            rounds += 1
+            polls = [blk for blk in f['blocks'] if blk['t']['k'] == 'call' and blk['t'].get('resolved') in async_helpers and
+                     norm(blk['t'].get('callee') or '') == 'core::future::future::Future::poll']
+            for blk in polls:
+                g, c = async_helpers[blk['t']['resolved']]
+                if c['path'] in stack or c is f or depth >= MAX_DEPTH:
+                    continue
+                gnp = norm(g['path'])
+                calls = [b2 for b2 in f['blocks'] if b2['t']['k'] == 'call' and _callee_np(b2['t']) == gnp and not b2.get('await_spliced')]
+                if not calls:
+                    continue
+                cb = calls[0]
+                if c['path'] not in done_c:
+                    cc = copy.deepcopy(c)
+                    expand(cc, stack + (f['path'],), depth + 1)
+                    expand_awaits(cc, stack + (f['path'],), depth + 1)
+                    done_c[c['path']] = cc
+                cb['await_spliced'] = True
+                _splice_await(f, cb['i'], blk['i'], g, done_c[c['path']])
+                changed = True
+                break
     report = {}
     for f in fns:
         if norm(f['path']) in unknown and f['kind'] in ('Fn', 'AssocFn'):
             continue
+        if f['path'] in async_helpers:
+            continue
         before = len(f['blocks'])
+        expand_awaits(f, (f['path'],), 0)
         expand(f, (f['path'],), 0)
         if len(f['blocks']) != before:
             report[f['path']] = list(f.get('inlined') or [])
     inlined_somewhere = set(p for ps in report.values() for p in ps)
+    # a coroutine body is fully represented inside its awaiters when nothing polls it any more
+    still_polled = set(blk['t'].get('resolved') for f in fns if f['path'] not in async_helpers for blk in f['blocks'] if blk['t']['k'] == 'call')
     out = []
     for f in fns:
         if f['kind'] in ('Fn', 'AssocFn') and f['path'] in inlined_somewhere and norm(f['path']) in unknown and not _references_as_value(fns, f['path']):
             continue  # fully represented inside its callers
+        if f['path'] in async_helpers and f['path'] in inlined_somewhere and f['path'] not in still_polled:
+            continue
         out.append(f)
     return out, report
 
